@@ -26,4 +26,20 @@ LEVEL = {
         note="Trusted: Lean kernel; axioms ⊆ {propext, Classical.choice, Quot.sound}; hand-written model tied by differential testing; the real "
              "vocoder is abstracted by its transcript (its determinism and frame length are observed, not proved).",
     ),
+    "C08": dict(
+        text="All clauses are theorems about the model of DurationEstimator::create over any ordered field with floor: create(1) = max(1,round(mean)); "
+             "create is total (the unwrap on an empty min_by is unreachable by pigeonhole, the greedy loop ends within |target-sum| iterations); one "
+             "duration >= 1 per state; total = max(round(F1/s), n); antitone in s. Tied to src/duration.rs by exact comparison of whole duration vectors "
+             "(which also pins the first-minimum greedy choice) on generated and real duration models. f64 rounding itself is test-level.",
+        note="Trusted: Lean kernel; axioms ⊆ {propext, Classical.choice, Quot.sound}; roundMax1 x = max 1 ⌊x+1/2⌋₊ as the exact-arithmetic meaning of "
+             "x.round().max(1.0) as usize; total_cmp on NaN costs is outside the model (variances non-zero).",
+    ),
+    "C09": dict(
+        text="Theorems: Labels::new gap filling equals a non-sequential specification; with the repaired tail handling every label keeps all its states "
+             "(each >= 1 frame) and nothing panics; for every label with known end the frames through it are c + round(e-c) = round(e) unless the group "
+             "cannot fit, in which case each state gets exactly 1; unknown-end labels share one estimate call (by construction). The defect found — "
+             "trailing labels without an end vanished — is repaired in /repo (fix: 7c58cfc) and kept as a theorem about the pinned behaviour. Tied to "
+             "src/label.rs and src/duration.rs by exhaustive small and random annotations, exact comparison.",
+        note="Trusted: as C08; jlabel parsing is outside (labels are opaque); str::parse::<f64> exercised only through integer time stamps.",
+    ),
 }
